@@ -384,10 +384,10 @@ func runC19Once(payload string) string {
 		return 0
 	}
 	return strings.Join(out, " ; ") + fmt.Sprintf(" ### nt=%d rd=%s ty=%s eof=%s queries=%d after_peek=%d saw_eof=%d multibyte=%d errors=%d compound_read=%d",
-		nt, kv["rd"], kv["ty"], kv["eof"], bucket(len(queries)-drain), b(afterPeek), bucket(sawEOF), b(multi), b(errs), b(compoundRead))
+		nt, kv["rd"], kv["ty"], kv["eof"], bucket_c19(len(queries)-drain), b(afterPeek), bucket_c19(sawEOF), b(multi), b(errs), b(compoundRead))
 }
 
-func bucket(n int) int {
+func bucket_c19(n int) int {
 	if n > 4 {
 		return 5
 	}
@@ -1118,5 +1118,5 @@ func runC19Out(payload string) string {
 		}
 		return 0
 	}
-	return strings.Join(out, " ; ") + fmt.Sprintf(" ### nt=%d ty=%s errors=%d multibyte=%d writes=%d", nt, parseKV(parts[0])["ty"], b(errOps), b(multi), bucket(sink.n))
+	return strings.Join(out, " ; ") + fmt.Sprintf(" ### nt=%d ty=%s errors=%d multibyte=%d writes=%d", nt, parseKV(parts[0])["ty"], b(errOps), b(multi), bucket_c19(sink.n))
 }
